@@ -267,8 +267,11 @@ def conclude(prop, tier, seed, results, t0, a):
         },
         "assumptions": ASSUMPTIONS,
     }
-    os.makedirs(os.path.join(ROOT, "evidence"), exist_ok=True)
-    with open(os.path.join(ROOT, "evidence", f"{prop}.json"), "w") as fh:
+    # experiments on changed sources (tools/run_seeded.py, HASHSTORE_SRC) write their evidence to a
+    # directory of their own so that the committed evidence always describes the unchanged tree
+    evdir = os.environ.get("VERIF_EVIDENCE_DIR") or os.path.join(ROOT, "evidence")
+    os.makedirs(evdir, exist_ok=True)
+    with open(os.path.join(evdir, f"{prop}.json"), "w") as fh:
         json.dump(evidence, fh, indent=1, default=str)
     for l in lines:
         print(l)
